@@ -283,6 +283,27 @@ def replay_combo(combo, seed=0):
     return None
 
 
+def axsize_check(cls, w):
+    """Model-independent: the AW/AR attributes a real AXILite2AXI / Wishbone2AXI drives on a `w`-bit AXI bus are those
+    of a full-width single beat (size = log2(bus bytes) <= bus, len = 0).  Returns (message or None, observed)."""
+    ax = axi.AXIInterface(data_width=w, address_width=32)
+    try:
+        if cls == "AXILite2AXI":
+            mod = axi.AXILite2AXI(axi.AXILiteInterface(data_width=w, address_width=32), ax)
+        else:
+            mod = axi.Wishbone2AXI(wishbone.Interface(data_width=w, address_width=32, addressing="word"), ax)
+    except Exception as ex:
+        return "%s cannot be built on a %d-bit bus: %r" % (cls, w, ex), None
+    nl = Netlist(mod)
+    nl.settle()
+    g4 = (nl.getu(ax.aw.size), nl.getu(ax.ar.size), nl.getu(ax.aw.len), nl.getu(ax.ar.len))
+    if g4 != (log2(w // 8),) * 2 + (0, 0):
+        return ("%s on a %d-bit bus drives aw.size/ar.size/aw.len/ar.len = %r (a full-width single beat is size %d, "
+                "len 0; size %d would be %d-byte beats on a %d-byte bus)" % (cls, w, g4, log2(w // 8), g4[0], 1 << g4[0],
+                                                                        w // 8)), g4
+    return None, g4
+
+
 def differential(ctx):
     """Returns the list of disagreements (empty on the unchanged tree)."""
     logging.getLogger("SoCBusHandler").setLevel(logging.CRITICAL)
@@ -378,23 +399,15 @@ def _differential(ctx):
     widths = [8, 16, 32, 64, 128, 256, 512, 1024]
     ans = ctx.lean.call_batch(["axsize %d" % w for w in widths])
     for w, r in zip(widths, ans):
-        got = {}
         for cls in ("AXILite2AXI", "Wishbone2AXI"):
-            ax = axi.AXIInterface(data_width=w, address_width=32)
-            if cls == "AXILite2AXI":
-                mod = axi.AXILite2AXI(axi.AXILiteInterface(data_width=w, address_width=32), ax)
-            else:
-                if w < 16:
-                    continue
-                mod = axi.Wishbone2AXI(wishbone.Interface(data_width=w, address_width=32, addressing="word"), ax)
-            nl = Netlist(mod)
-            nl.settle()
-            got[cls] = (nl.getu(ax.aw.size), nl.getu(ax.ar.size), nl.getu(ax.aw.len), nl.getu(ax.ar.len))
-        for cls, g4 in got.items():
+            if cls == "Wishbone2AXI" and w < 16:
+                continue
             name = "%s(dw=%d)" % (cls, w)
-            if g4 != (log2(w // 8),) * 2 + (0, 0):
-                dis.append(mk_dis(name, "monitor:%s on a %d-bit bus drives aw.size/ar.size/aw.len/ar.len = %r (a "
-                                  "full-width single beat is size %d, len 0)" % (cls, w, g4, log2(w // 8))))
+            msg, g4 = axsize_check(cls, w)
+            if msg:
+                d = mk_dis(name, "monitor:" + msg)
+                d.axsize = [cls, w]
+                dis.append(d)
             elif g4[0] != int(r):
                 dis.append(mk_dis(name, "adapter-glue: AxSIZE constant", list(g4), r))
     ctx.cov.add_cases("AxSIZE constant of AXILite2AXI / Wishbone2AXI, 8..1024 bits", 2 * len(widths), 2 * len(widths),
